@@ -88,6 +88,8 @@ type Path struct {
 	nowCalls  int64
 	syncMaps  map[*value]*hashmap
 	builders  map[*value]*strings.Builder
+	fs        map[string]*memFile
+	handles   map[*value]*fileHandle
 }
 
 func (p *Path) syncMap(m *value) *hashmap {
